@@ -189,6 +189,19 @@ static void dump_obj(struct conf_node_object *obj, int depth)
  * valid files; candidate = fuzz bytes.  A rejected candidate must leave the
  * canonical dump unchanged and the hook log empty. */
 #include <sys/stat.h>
+#ifdef CONFH_ENUM
+static const uint8_t *cur_data;
+static size_t cur_size;
+static char fail_path[520];
+static void save_current(void)
+{
+    FILE *f = fopen(fail_path, "wb");
+    if (f) { fwrite(cur_data, 1, cur_size, f); fclose(f); }
+}
+#define ORACLE_TRAP() do { save_current(); fflush(stderr); _exit(78); } while (0)
+#else
+#define ORACLE_TRAP() __builtin_trap()
+#endif
 static const char *PRIORS[] = {
     "ra { s1 one; s2 \"two\"; i1 0x10; b1 off; iv 1h; vol 2M; fl 2.5; l1 (p, q, r); l2 (z); ad \"::2\" 8080; sub { s3 x; un 1 } ; extra (1); };\n"
     "top level;\nrb { s1 bee; obj { k v }; };\nstray { a b; c (d); };\n",
@@ -196,6 +209,9 @@ static const char *PRIORS[] = {
     "\n",
     "core { modules ( iauth_class, iauth_xquery ); }\nlogs { \"*.>=info\" \"file:x.log\" }\niauth_class { r1 { class a; address \"10.0.0.0/8\" }; }\n",
 };
+#ifdef CONFH_ENUM
+static unsigned long enum_rejected, enum_accepted;
+#endif
 static char *dump_string(void)
 {
     char *buf = NULL;
@@ -248,7 +264,7 @@ int LLVMFuzzerTestOneInput(const uint8_t *data, size_t size)
     fclose(f);
     if (conf_read(prior_path) != 0) {
         fprintf(stderr, "ORACLE-FAIL: built-in prior file rejected\n");
-        __builtin_trap();
+        ORACLE_TRAP();
     }
     f = fopen(cand_path, "w");
     fwrite(data + 1, 1, size - 1, f);
@@ -257,15 +273,18 @@ int LLVMFuzzerTestOneInput(const uint8_t *data, size_t size)
     hooklen = 0;
     loglen = 0;
     rc = conf_read(cand_path);
+#ifdef CONFH_ENUM
+    if (rc) enum_rejected++; else enum_accepted++;
+#endif
     if (rc != 0) {
         d1 = dump_string();
         if (strcmp(d0, d1)) {
             fprintf(stderr, "ORACLE-FAIL: load failed (%d) but the live configuration changed\n--- before\n%s--- after\n%s", rc, d0, d1);
-            __builtin_trap();
+            ORACLE_TRAP();
         }
         if (hooklen) {
             fprintf(stderr, "ORACLE-FAIL: load failed (%d) but change hooks ran: %.*s\n", rc, (int)hooklen, hookbuf);
-            __builtin_trap();
+            ORACLE_TRAP();
         }
         free(d1);
     }
@@ -274,7 +293,73 @@ int LLVMFuzzerTestOneInput(const uint8_t *data, size_t size)
     loglen = 0;
     return 0;
 }
-#else
+#endif
+#if defined(CONFH_ENUM)
+/* Exhaustive crash-point enumerator for C14 (DESIGN section 7): every byte prefix, every
+ * single-bit flip, every single-byte deletion and every insertion of a grammar token at
+ * every position of every corpus file, each on top of every built-in prior state.
+ * usage: conf_enum <shard> <nshards> <workdir> <corpusfile>...  */
+extern void __sanitizer_set_death_callback(void (*)(void));
+static unsigned long n_cases, n_by_kind[4];
+static void one(uint8_t *buf, size_t n)
+{
+    cur_data = buf; cur_size = n;
+    LLVMFuzzerTestOneInput(buf, n);
+    n_cases++;
+}
+int main(int argc, char **argv)
+{
+    static const char *TOKENS[] = { "{", "}", "(", ")", "\"", ",", ";", "\\", "/*", "*/", "//", "\n", " ", "\"\\", "a b c", "((" };
+    unsigned shard, nshards, np = sizeof(PRIORS) / sizeof(PRIORS[0]), nt = sizeof(TOKENS) / sizeof(TOKENS[0]);
+    unsigned long idx = 0;
+    int fi;
+    if (argc < 5) return 2;
+    shard = atoi(argv[1]); nshards = atoi(argv[2]);
+    setenv("VERIF_INPROC_DIR", argv[3], 1);
+    snprintf(fail_path, sizeof(fail_path), "%s/enum-fail-%u.bin", argv[3], shard);
+    __sanitizer_set_death_callback(save_current);
+    for (fi = 4; fi < argc; fi++) {
+        static uint8_t text[1 << 16], buf[(1 << 16) + 64];
+        size_t n, pos;
+        unsigned p, b, t;
+        FILE *f = fopen(argv[fi], "rb");
+        if (!f) return 2;
+        n = fread(text, 1, sizeof(text), f);
+        fclose(f);
+        for (p = 0; p < np; p++) {
+            buf[0] = (uint8_t)p;
+            for (pos = 0; pos <= n; pos++, idx++) {
+                if (idx % nshards != shard) continue;
+                /* prefix */
+                memcpy(buf + 1, text, pos);
+                one(buf, 1 + pos); n_by_kind[0]++;
+                if (pos == n) break;
+                /* bit flips */
+                memcpy(buf + 1, text, n);
+                for (b = 0; b < 8; b++) {
+                    buf[1 + pos] = text[pos] ^ (uint8_t)(1u << b);
+                    one(buf, 1 + n); n_by_kind[1]++;
+                }
+                /* single-byte deletion */
+                memcpy(buf + 1, text, pos);
+                memcpy(buf + 1 + pos, text + pos + 1, n - pos - 1);
+                one(buf, n); n_by_kind[2]++;
+                /* token insertion */
+                for (t = 0; t < nt; t++) {
+                    size_t tl = strlen(TOKENS[t]);
+                    memcpy(buf + 1, text, pos);
+                    memcpy(buf + 1 + pos, TOKENS[t], tl);
+                    memcpy(buf + 1 + pos + tl, text + pos, n - pos);
+                    one(buf, 1 + n + tl); n_by_kind[3]++;
+                }
+            }
+        }
+    }
+    printf("ENUM cases=%lu prefix=%lu bitflip=%lu delete=%lu insert=%lu rejected=%lu accepted=%lu\n", n_cases,
+           n_by_kind[0], n_by_kind[1], n_by_kind[2], n_by_kind[3], enum_rejected, enum_accepted);
+    return 0;
+}
+#elif !defined(CONFH_FUZZ)
 int main(void)
 {
     static char line[1 << 20];
